@@ -11,6 +11,7 @@ import (
 	"os"
 	"strconv"
 	"strings"
+	"unicode/utf8"
 
 	vh "github.com/sivchari/govalid/validation/validationhelper"
 )
@@ -43,10 +44,12 @@ func atoi(s string) int {
 
 type fn func(a []string) string
 
-func str(f func(string) bool) fn  { return func(a []string) string { return tf(f(unhex(a[0]))) } }
-func byt(f func(byte) bool) fn    { return func(a []string) string { return tf(f(byte(atoi(a[0])))) } }
-func run(f func(rune) bool) fn    { return func(a []string) string { return tf(f(rune(atoi(a[0])))) } }
-func strint(f func(string) int) fn { return func(a []string) string { return strconv.Itoa(f(unhex(a[0]))) } }
+func str(f func(string) bool) fn { return func(a []string) string { return tf(f(unhex(a[0]))) } }
+func byt(f func(byte) bool) fn   { return func(a []string) string { return tf(f(byte(atoi(a[0])))) } }
+func run(f func(rune) bool) fn   { return func(a []string) string { return tf(f(rune(atoi(a[0])))) } }
+func strint(f func(string) int) fn {
+	return func(a []string) string { return strconv.Itoa(f(unhex(a[0]))) }
+}
 func strpos(f func(string, int) bool) fn {
 	return func(a []string) string { return tf(f(unhex(a[0]), atoi(a[1]))) }
 }
@@ -81,6 +84,8 @@ var table = map[string]fn{
 	"isValidHostStart":          byt(vh.VerifIsValidHostStart),
 
 	"IsValidAlpha": str(vh.IsValidAlpha),
+	"RuneCount":    func(a []string) string { return strconv.Itoa(utf8.RuneCountInString(unhex(a[0]))) },
+	"Runes":        func(a []string) string { return runesOf(unhex(a[0])) },
 	"IsNumeric":    str(vh.IsNumeric),
 }
 
@@ -112,4 +117,17 @@ func main() {
 		out.WriteString(call(f, strings.Fields(line)))
 		out.WriteByte('\n')
 	}
+}
+
+func runesOf(s string) string {
+	var sb strings.Builder
+	first := true
+	for _, r := range s {
+		if !first {
+			sb.WriteByte(',')
+		}
+		first = false
+		sb.WriteString(strconv.Itoa(int(r)))
+	}
+	return sb.String()
 }
